@@ -1,4 +1,246 @@
 import Tfv.Model
+import Tfv.Spec.Sat
+import Tfv.Spec.SatChain
+import Tfv.Spec.SatWitness
+import Tfv.Proofs.InferMain
+import Tfv.Proofs.InferCounter
+import Tfv.Proofs.InferExamples
+import Tfv.Proofs.InferInstantiate
+import Tfv.Proofs.InferLink
+import Tfv.Proofs.InferPlain
+import Tfv.Spec.SatPlain
+/-!
+# C03 — applying a schematic function type is sound
+
+Whenever applying a schematic function type to arguments succeeds, its variables
+can be replaced by concrete types — each resolved variable by the type it was
+resolved to, each unresolved one by any type within the bounds it reports — so
+that every argument is a subtype of the corresponding parameter and the returned
+type is the instantiated result; a variable bounded by a base type is never
+resolved to a compound type.
+
+Scope: the constraint-free engine (`NoConstraints σ`, `skip_basic = skip_wildcard = False`),
+which is what `Type.apply` runs. Statements only; the proofs are in `Tfv/Proofs/`
+(files `Infer*.lean`, namespace `Tfv.C03P`).
+`Sat L ρ σ` (Spec/Sat.lean) says the valuation `ρ` is a solution of the store `σ`.
+-/
 namespace Tfv.C03
-theorem placeholder : True := trivial
+open Tfv Tfv.C03P
+
+/-- Subtype unification is sound: the resulting store is well formed and still
+constraint free, no variable is lost, every solution of the resulting store is a
+solution of the original one ("solutions only shrink") and makes `a` a subtype of `b`.
+PARTIAL: needs `st = true` (`subtype=True`, the only mode `Type.apply` uses);
+for `st = false` the statement is false of the model, see `C03_unify_plain_unsound_*`. -/
+theorem C03_unify_sound_partial (L : Lang) (wf : WF L) (n : Nat) (σ σ' : Store) (a b : Term) (st : Bool)
+    (hst : st = true) (ok : OkStore L σ) (nc : NoConstraints σ)
+    (ha : okTerm L σ a = true) (hb : okTerm L σ b = true)
+    (h : unify L n σ a b st false false = .ok σ') :
+    OkStore L σ' ∧ NoConstraints σ' ∧ σ.vars.length ≤ σ'.vars.length ∧
+    (∀ t, okTerm L σ t = true → okTerm L σ' t = true) ∧
+    ∀ ρ, Sat L ρ σ' → Sat L ρ σ ∧ (if st then Sub L (den ρ a) (den ρ b) else den ρ a = den ρ b) :=
+  unify_sound_partial wf hst ok nc ha hb h
+
+example : OkStore exL σU ∧ NoConstraints σU ∧ okTerm exL σU (.var 0) = true ∧ okTerm exL σU (.var 1) = true ∧
+    unify exL 10 σU (.var 0) (.var 1) true false false = .ok σU' ∧
+    Sat exL (valOf [.app 6 [], .app 6 []]) σU' :=
+  ⟨σU_ok, σU_nc, by decide, by decide, exU_run, satB_sound exL_wf (okStoreB_sound (by decide)) (by decide)⟩
+
+/-- Finding: plain unification (`subtype=False`) accepts a variable with lower bound `A`
+against the unrelated base type `C`; the resulting store has a solution that is not a
+solution of the original store, so the soundness statement fails for `st = false`. -/
+theorem C03_unify_plain_unsound_bound :
+    ¬ (∀ (L : Lang) (n : Nat) (σ σ' : Store) (a b : Term), WF L → OkStore L σ → NoConstraints σ →
+        okTerm L σ a = true → okTerm L σ b = true →
+        unify L n σ a b false false false = .ok σ' →
+        ∀ ρ, Sat L ρ σ' → Sat L ρ σ ∧ den ρ a = den ρ b) := unify_sound_fails_without_subtype
+
+/-- Finding: plain unification (`subtype=False`) of `Bottom` with a base type `A` succeeds
+although the two types differ (the `Bottom`/`Top` shortcut ignores the `subtype` flag). -/
+theorem C03_unify_plain_unsound_bottom :
+    ¬ (∀ (L : Lang) (n : Nat) (σ σ' : Store) (a b : Term), WF L → OkStore L σ → NoConstraints σ →
+        okTerm L σ a = true → okTerm L σ b = true →
+        unify L n σ a b false false false = .ok σ' →
+        ∀ ρ, Sat L ρ σ' → den ρ a = den ρ b) := unify_eq_fails_on_bottom
+
+/-- Plain unification (`subtype=False`) IS sound on the fragment without base-type bounds and
+without `Bottom`/`Top` (`PlainStore σ`, `noBT a`, `noBT b`): the fragment is preserved, solutions
+only shrink, and the two terms mean the same under every remaining solution.
+PARTIAL: the two extra hypotheses exclude exactly the two findings above. -/
+theorem C03_unify_plain_sound_partial (L : Lang) (wf : WF L) (n : Nat) (σ σ' : Store) (a b : Term)
+    (ok : OkStore L σ) (nc : NoConstraints σ) (P : PlainStore σ)
+    (ha : okTerm L σ a = true) (hb : okTerm L σ b = true) (hna : noBT a = true) (hnb : noBT b = true)
+    (h : unify L n σ a b false false false = .ok σ') :
+    OkStore L σ' ∧ NoConstraints σ' ∧ PlainStore σ' ∧ σ.vars.length ≤ σ'.vars.length ∧
+    ∀ ρ, Sat L ρ σ' → Sat L ρ σ ∧ den ρ a = den ρ b :=
+  unify_plain_sound_partial wf ok nc P ha hb hna hnb h
+
+example : OkStore exL σP ∧ NoConstraints σP ∧ PlainStore σP ∧
+    unify exL 10 σP (.app 7 [.var 0]) (.app 7 [.var 1]) false false false = .ok σP' ∧
+    Sat exL (valOf [.app 5 [], .app 5 []]) σP' :=
+  ⟨okStoreB_sound (by decide), noConstraintsB_sound (by decide), plainStoreB_sound (by decide),
+   by with_unfolding_all rfl, satB_sound exL_wf (okStoreB_sound (by decide)) (by decide)⟩
+
+/-- the two concrete runs behind the findings -/
+example : unify cexL 5 cexσ (.var 0) (.app 6 []) false false false = .ok cexσ' ∧
+    Sat cexL (valOf [.app 6 []]) cexσ' ∧ ¬ Sat cexL (valOf [.app 6 []]) cexσ :=
+  ⟨cex_bound_run, cex_bound_sat, cex_bound_unsat⟩
+example : unify cexL 5 {} (.app BOT []) (.app 5 []) false false false = .ok {} := cex_bot_run
+
+/-- `fix` (resolve every unresolved variable of a term to its preferred bound) is sound:
+solutions only shrink and the returned term means the same as the given one. -/
+theorem C03_fix_sound (L : Lang) (wf : WF L) (n : Nat) (σ σ' : Store) (t t' : Term) (pl : Bool)
+    (ok : OkStore L σ) (nc : NoConstraints σ) (ht : okTerm L σ t = true)
+    (h : fix L n σ t pl = .ok (σ', t')) :
+    OkStore L σ' ∧ NoConstraints σ' ∧ σ.vars.length ≤ σ'.vars.length ∧
+    (∀ t, okTerm L σ t = true → okTerm L σ' t = true) ∧ okTerm L σ' t' = true ∧
+    ∀ ρ, Sat L ρ σ' → Sat L ρ σ ∧ den ρ t' = den ρ t := fix_sound wf ok nc ht h
+
+example : fix exL 10 σS2 (.var 0) true = .ok (σS3, .app 5 []) := by with_unfolding_all rfl
+
+/-- Instantiating a schema without constraints (`TypeSchema.instance()`: fresh variables, then
+`fix`) is sound: the store only grows by the schema's variables, solutions only shrink, and the
+returned term means the same as the body over the fresh variables. -/
+theorem C03_instantiate_sound (L : Lang) (wf : WF L) (n : Nat) (σ σ' : Store) (s : Schema) (f : Term)
+    (ok : OkStore L σ) (nc : NoConstraints σ) (hc : s.constraints = [])
+    (hbody : okTermN L (s.nvars + s.nwild) s.body = true)
+    (h : instantiate L n σ s = .ok (σ', f)) :
+    OkStore L σ' ∧ NoConstraints σ' ∧ σ.vars.length + s.nvars + s.nwild ≤ σ'.vars.length ∧
+    (∀ t, okTerm L σ t = true → okTerm L σ' t = true) ∧ okTerm L σ' f = true ∧
+    ∀ ρ, Sat L ρ σ' → Sat L ρ σ ∧ den ρ f = den ρ (s.body.shift σ.vars.length) :=
+  instantiate_sound wf ok nc hc hbody h
+
+example : OkStore exL {} ∧ NoConstraints {} ∧ exS.constraints = [] ∧
+    okTermN exL (exS.nvars + exS.nwild) exS.body = true ∧ instantiate exL 10 {} exS = .ok (σS, exF) :=
+  ⟨empty_ok exL, empty_nc, rfl, by decide, exS_run⟩
+
+/-- `Type.apply` is sound: under every solution of the resulting store the function
+type is `p ** r'` with the argument a subtype of `p` and `r'` the meaning of the returned
+term (or the function type is `Top` and so is the result). -/
+theorem C03_apply_sound (L : Lang) (wf : WF L) (n : Nat) (σ σ' : Store) (f x r : Term) (fixFlag : Bool)
+    (ok : OkStore L σ) (nc : NoConstraints σ) (hf : okTerm L σ f = true) (hx : okTerm L σ x = true)
+    (h : applyT L n σ f x fixFlag = .ok (σ', r)) :
+    OkStore L σ' ∧ NoConstraints σ' ∧ σ.vars.length ≤ σ'.vars.length ∧
+    (∀ t, okTerm L σ t = true → okTerm L σ' t = true) ∧ okTerm L σ' r = true ∧
+    ∀ ρ, Sat L ρ σ' → Sat L ρ σ ∧
+      ((∃ p, den ρ f = .app FUN [p, den ρ r] ∧ Sub L (den ρ x) p) ∨
+       (den ρ f = .app TOP [] ∧ r = .app TOP [])) := apply_sound wf ok nc hf hx h
+
+example : OkStore exL σS ∧ NoConstraints σS ∧ okTerm exL σS exF = true ∧
+    applyT exL 10 σS exF (.app 7 [.app 6 []]) true = .ok (σS1, .app FUN [.var 0, .var 0]) ∧
+    Sat exL (valOf [.app 5 []]) σS1 :=
+  ⟨σS_ok, σS_nc, by decide, exB_step1, satB_sound exL_wf (okStoreB_sound (by decide)) (by decide)⟩
+
+/-- A chain of applications `f.apply(x₁).apply(x₂)…` is sound: under every solution of the
+final store, `f` means `p₁ ** p₂ ** … ** r'` with every argument a subtype of the
+corresponding parameter and `r'` the meaning of the returned term. -/
+theorem C03_apply_chain (L : Lang) (wf : WF L) (n : Nat) (fixFlag : Bool) (σ σ' : Store) (f r : Term)
+    (xs : List Term) (ok : OkStore L σ) (nc : NoConstraints σ)
+    (hf : okTerm L σ f = true) (hxs : okTermL L σ xs = true)
+    (h : applyAll L n fixFlag σ f xs = .ok (σ', r)) :
+    OkStore L σ' ∧ NoConstraints σ' ∧ σ.vars.length ≤ σ'.vars.length ∧
+    (∀ t, okTerm L σ t = true → okTerm L σ' t = true) ∧ okTerm L σ' r = true ∧
+    ∀ ρ, Sat L ρ σ' → Sat L ρ σ ∧ Accepts L (den ρ f) (denL ρ xs) (den ρ r) :=
+  apply_chain wf ok nc hf hxs h
+
+/-- `(F(x0) ** x0 ** x0).apply(F(B)).apply(A)` returns `A`, with `x0 := A` -/
+example : okTerm exL σS exF = true ∧ okTermL exL σS [.app 7 [.app 6 []], .app 5 []] = true ∧
+    applyAll exL 10 true σS exF [.app 7 [.app 6 []], .app 5 []] = .ok (σS3, .app 5 []) ∧
+    Sat exL (valOf [.app 5 []]) σS3 :=
+  ⟨by decide, by decide, exB_run, satB_sound exL_wf (okStoreB_sound (by decide)) (by decide)⟩
+
+/-- In every store reached by a successful chain of applications, a variable that carries a
+lower or an upper base-type bound is never bound to a compound type. -/
+theorem C03_base_bound_never_compound (L : Lang) (wf : WF L) (n : Nat) (fixFlag : Bool) (σ σ' : Store)
+    (f r : Term) (xs : List Term) (ok : OkStore L σ) (nc : NoConstraints σ)
+    (hf : okTerm L σ f = true) (hxs : okTermL L σ xs = true)
+    (h : applyAll L n fixFlag σ f xs = .ok (σ', r)) :
+    ∀ v o args, (getVar σ' v).bound = some (.app o args) →
+      ((getVar σ' v).lower.isSome = true ∨ (getVar σ' v).upper.isSome = true) → arityOf L o = 0 :=
+  base_bound_never_compound wf ok nc hf hxs h
+
+/-- … and the same after a successful subtype unification. -/
+theorem C03_base_bound_never_compound_unify (L : Lang) (wf : WF L) (n : Nat) (σ σ' : Store) (a b : Term)
+    (ok : OkStore L σ) (nc : NoConstraints σ) (ha : okTerm L σ a = true) (hb : okTerm L σ b = true)
+    (h : unify L n σ a b true false false = .ok σ') :
+    ∀ v o args, (getVar σ' v).bound = some (.app o args) →
+      ((getVar σ' v).lower.isSome = true ∨ (getVar σ' v).upper.isSome = true) → arityOf L o = 0 :=
+  base_bound_never_compound_unify wf ok nc ha hb h
+
+/-- in the final store of the example `x0` has the lower bound `A` and is bound to the base type `A` -/
+example : (getVar σS3 0).bound = some (.app 5 []) ∧ (getVar σS3 0).lower = some 5 ∧ arityOf exL 5 = 0 :=
+  ⟨rfl, rfl, rfl⟩
+
+/-- The solutions quantified over above exist: a well-formed store whose bindings are acyclic
+has a solution extending any admissible choice `θ` for its unresolved variables (well-formed
+types within the reported bounds). -/
+theorem C03_witness_exists (L : Lang) (σ : Store) (ok : OkStore L σ) (hac : Acyclic σ)
+    (θ : Val) (hθ : Choice L θ σ) :
+    ∃ ρ, Sat L ρ σ ∧ ∀ v, (getVar σ v).bound = none → ρ v = θ v := witness_exists ok hac θ hθ
+
+/-- An admissible choice always exists: the lower bound, else the upper bound, else `Unit`. -/
+theorem C03_choice_exists (L : Lang) (wf : WF L) (σ : Store) (ok : OkStore L σ) :
+    Choice L (defaultChoice σ) σ := choice_exists wf ok
+
+/-- The executable test `acyclicB` (every variable expands through the bindings in finitely
+many steps) implies acyclicity; the harness evaluates it on final stores. -/
+theorem C03_acyclicB_sound (σ : Store) (h : acyclicB σ = true) : Acyclic σ := acyclicB_sound h
+
+/-- the executable form of the store invariant implies the invariant -/
+theorem C03_okStoreB_sound (L : Lang) (σ : Store) (h : okStoreB L σ = true) : OkStore L σ :=
+  okStoreB_sound h
+
+/-- the executable form of "no deferred constraints" -/
+theorem C03_noConstraintsB_sound (σ : Store) (h : noConstraintsB σ = true) : NoConstraints σ :=
+  noConstraintsB_sound h
+
+example : acyclicB σS3 = true ∧ acyclicB σA' = true ∧ acyclicB σU' = true := ⟨by decide, by decide, by decide⟩
+/-- a store with a bounded variable and a variable bound to `F(x0)`, with a solution -/
+example : let σ : Store := { vars := [{ lower := some 6, upper := some 5 }, { bound := some (.app 7 [.var 0]) }] }
+    okStoreB exL σ = true ∧ acyclicB σ = true ∧ satB exL [.app 6 [], .app 7 [.app 6 []]] σ = true :=
+  ⟨by decide, by decide, by decide⟩
+/-- a cyclic store is rejected by the test (and has no solution) -/
+example : acyclicB { vars := [{ bound := some (.app 7 [.var 0]) }] } = false := by decide
+
+/-- The property in one statement: after a successful chain of applications whose final store
+is acyclic, every admissible choice for the unresolved variables extends to an instantiation
+of all variables — resolved ones by what they were resolved to — under which every argument
+is a subtype of the corresponding parameter and the result is the returned type. -/
+theorem C03_apply_chain_instantiation (L : Lang) (wf : WF L) (n : Nat) (fixFlag : Bool) (σ σ' : Store)
+    (f r : Term) (xs : List Term) (ok : OkStore L σ) (nc : NoConstraints σ)
+    (hf : okTerm L σ f = true) (hxs : okTermL L σ xs = true)
+    (h : applyAll L n fixFlag σ f xs = .ok (σ', r)) (hac : Acyclic σ')
+    (θ : Val) (hθ : Choice L θ σ') :
+    ∃ ρ, Sat L ρ σ' ∧ (∀ v, (getVar σ' v).bound = none → ρ v = θ v) ∧ Sat L ρ σ ∧
+      Accepts L (den ρ f) (denL ρ xs) (den ρ r) :=
+  apply_chain_instantiation wf ok nc hf hxs h hac θ hθ
+
+example : ∃ ρ, Sat exL ρ σS3 ∧ Sat exL ρ σS ∧
+    Accepts exL (den ρ exF) (denL ρ [.app 7 [.app 6 []], .app 5 []]) (den ρ (.app 5 [])) := by
+  obtain ⟨ρ, h1, _, h2, h3⟩ := C03_apply_chain_instantiation exL exL_wf 10 true σS σS3 exF (.app 5 [])
+    [.app 7 [.app 6 []], .app 5 []] σS_ok σS_nc (by decide) (by decide) exB_run
+    (acyclicB_sound (by decide)) _ (choice_exists exL_wf (okStoreB_sound (by decide)))
+  exact ⟨ρ, h1, h2, h3⟩
+
+/-- Link to the concrete model (C02): on variable-free terms and with enough fuel (`Ty.need`, at most
+twice the size of the type), `Type.apply` of the engine returns exactly what `applyC` returns — the
+same result type or the same kind of error — and leaves the store untouched. -/
+theorem C03_concrete_link (L : Lang) (σ : Store) (f x : Ty) (n : Nat) (fixFlag : Bool)
+    (hx : Ty.need x ≤ n) (hf : Ty.need f ≤ n) :
+    applyT L n σ f.toTerm x.toTerm fixFlag = liftA σ (applyC L f x) :=
+  concrete_link L σ f x n fixFlag hx hf
+
+/-- … in particular the engine succeeds on variable-free terms exactly when the concrete model does -/
+theorem C03_concrete_link_iff (L : Lang) (σ : Store) (f x : Ty) (n : Nat) (fixFlag : Bool)
+    (hx : Ty.need x ≤ n) (hf : Ty.need f ≤ n) :
+    (∃ σ' r, applyT L n σ f.toTerm x.toTerm fixFlag = .ok (σ', r)) ↔ (∃ b, applyC L f x = .ok b) :=
+  concrete_link_iff L σ f x n fixFlag hx hf
+
+/-- the fuel bound in terms of the size of the type -/
+theorem C03_need_le_size (t : Ty) : Ty.need t ≤ 2 * Ty.size t := need_le_size t
+
+example : Ty.need (.app FUN [.app 7 [.app 5 []], .app 5 []]) = 6 ∧ Ty.need (.app 7 [.app 6 []]) = 4 ∧
+    applyC exL (.app FUN [.app 7 [.app 5 []], .app 5 []]) (.app 7 [.app 6 []]) = .ok (.app 5 []) :=
+  ⟨by decide, by decide, by rfl⟩
+
 end Tfv.C03
